@@ -376,5 +376,461 @@ theorem fillCycle_origin {p : Proc N} (hord : orderOK p = true) (prog : List (In
 
 end origin
 
+/-! ## 4. The rank argument -/
+
+section rank
+omit [LT N] [DecidableRel (α := N) (· < ·)]
+
+omit [DecidableEq N] in
+theorem eq_of_idx_eq {l : List HI} (h : (l.map (·.idx)).Nodup) {a b : HI} (ha : a ∈ l) (hb : b ∈ l)
+    (e : a.idx = b.idx) : a = b := by
+  induction l with
+  | nil => cases ha
+  | cons c l ih =>
+    simp only [List.map_cons, List.nodup_cons] at h
+    rcases List.mem_cons.1 ha with rfl | ha' <;> rcases List.mem_cons.1 hb with rfl | hb'
+    · rfl
+    · exact absurd (List.mem_map.2 ⟨b, hb', e.symm⟩) h.1
+    · exact absurd (List.mem_map.2 ⟨a, ha', e⟩) h.1
+    · exact ih h.2 ha' hb'
+
+omit [DecidableEq N] in
+theorem nodup_of_idx_nodup {l : List HI} (h : (l.map (·.idx)).Nodup) : l.Nodup := by
+  induction l with
+  | nil => exact List.nodup_nil
+  | cons c l ih =>
+    simp only [List.map_cons, List.nodup_cons] at h
+    exact List.nodup_cons.2 ⟨fun hc => h.1 (List.mem_map.2 ⟨c, hc, rfl⟩), ih h.2⟩
+
+omit [DecidableEq N] in
+/-- in a list without repeated program index, "was loaded" reads the label of the entry itself -/
+theorem wasLoaded_of_mem {l : List HI} (h : (l.map (·.idx)).Nodup) {x : HI} (hx : x ∈ l) :
+    wasLoaded l x.idx = (x.st != .D) := by
+  unfold wasLoaded
+  cases hd : (x.st != .D) with
+  | true => exact List.any_eq_true.2 ⟨x, hx, by simp [hd]⟩
+  | false =>
+    rw [List.any_eq_false]
+    intro o ho
+    by_cases e : o.idx = x.idx
+    · have := eq_of_idx_eq h ho hx e
+      subst this
+      simp [hd]
+    · simp [e]
+
+/-- the unit hosting program index `i` in record `u`, with the label (search in the order of `names`) -/
+def findHost (names : List N) (u : Util N) (i : Nat) : Option (N × Stall) :=
+  names.findSome? (fun n => ((u.get n).find? (fun x => x.idx == i)).map (fun x => (n, x.st)))
+
+theorem findHost_some {names : List N} {u : Util N} {i : Nat} {n : N} {l : Stall}
+    (h : findHost names u i = some (n, l)) : n ∈ names ∧ (⟨i, l⟩ : HI) ∈ u.get n := by
+  obtain ⟨a, ha, hf⟩ := List.exists_of_findSome?_eq_some h
+  rw [Option.map_eq_some_iff] at hf
+  obtain ⟨x, hx, e⟩ := hf
+  cases e
+  have h1 := List.find?_some hx
+  have h2 := List.mem_of_find?_eq_some hx
+  have : x.idx = i := by simpa using h1
+  subst this
+  exact ⟨ha, h2⟩
+
+theorem findHost_none {names : List N} {u : Util N} {i : Nat} (h : findHost names u i = none) :
+    ∀ n ∈ names, ∀ x ∈ u.get n, x.idx ≠ i := by
+  intro n hn x hx e
+  have := List.findSome?_eq_none_iff.1 h n hn
+  rw [Option.map_eq_none_iff, List.find?_eq_none] at this
+  exact this x hx (by simp [e])
+
+theorem findHost_of_mem {names : List N} {u : Util N} (hnd : RowND u) {n : N} (hn : n ∈ names) {x : HI}
+    (hx : x ∈ u.get n) : findHost names u x.idx = some (n, x.st) := by
+  cases h : findHost names u x.idx with
+  | none => exact absurd rfl (findHost_none h n hn x hx)
+  | some r =>
+    obtain ⟨n', l'⟩ := r
+    obtain ⟨_, h2⟩ := findHost_some h
+    have : n = n' := hnd.unique_host n n' x.idx (List.mem_map.2 ⟨x, hx, rfl⟩) (List.mem_map.2 ⟨_, h2, rfl⟩)
+    subst this
+    have e := congrArg HI.st (eq_of_idx_eq (hnd.nodup_unit n) hx h2 rfl)
+    simp only at e
+    rw [e]
+
+def labRank : Stall → Nat
+  | .D => 1 | .U => 2 | .S => 3
+
+theorem labRank_pos (l : Stall) : 1 ≤ labRank l := by cases l <;> simp [labRank]
+theorem labRank_le (l : Stall) : labRank l ≤ 3 := by cases l <;> simp [labRank]
+theorem labRank_inj {a b : Stall} (h : labRank a = labRank b) : a = b := by
+  cases a <;> cases b <;> simp [labRank] at h <;> rfl
+
+/-- rank of a retired instruction -/
+def retRank (p : Proc N) : Nat := 3 * p.allUnits.length + 1
+
+/-- rank of program index `i` in a state with record `u` and `e` issued instructions: `0` before it is issued,
+`3·pos(unit) + 1/2/3` while hosted with label `D/U/S`, `3·|units| + 1` once retired -/
+def rank (p : Proc N) (u : Util N) (e : Nat) (i : Nat) : Nat :=
+  match findHost (p.allUnits.map (·.name)) u i with
+  | some (n, l) => 3 * upos p n + labRank l
+  | none => if i < e then retRank p else 0
+
+theorem rank_of_mem {p : Proc N} {u : Util N} (e : Nat) (hnd : RowND u) {n : N}
+    (hn : n ∈ p.allUnits.map (·.name)) {x : HI} (hx : x ∈ u.get n) :
+    rank p u e x.idx = 3 * upos p n + labRank x.st := by
+  unfold rank; rw [findHost_of_mem hnd hn hx]
+
+theorem rank_of_not_hosted {p : Proc N} {u : Util N} {e i : Nat}
+    (h : findHost (p.allUnits.map (·.name)) u i = none) : rank p u e i = if i < e then retRank p else 0 := by
+  unfold rank; rw [h]
+
+/-- What a cycle does, per hosted instruction of the new record `new` (`e'` issued) w.r.t. the previous record `old`
+(`e` issued): it stayed in its unit (a `D` stays `D` or becomes `U`; `U`/`S` become `S`), it came from a unit of
+smaller position where it was not `D`, or it was issued in this cycle. -/
+structure CycleCtx (p : Proc N) (old : Util N) (e : Nat) (new : Util N) (e' : Nat) : Prop where
+  rowOld : RowBase p e old
+  ndOld : RowND old
+  rowNew : RowBase p e' new
+  ndNew : RowND new
+  hle : e ≤ e'
+  /-- a unit that hosts an instruction has a position below the number of units -/
+  hpos : ∀ m y, y ∈ old.get m → upos p m < p.allUnits.length
+  cases : ∀ n x', x' ∈ new.get n →
+    (∃ x ∈ old.get n, x.idx = x'.idx ∧ (x.st = .D → x'.st ≠ .S) ∧ (x.st ≠ .D → x'.st = .S)) ∨
+    (∃ m y, y ∈ old.get m ∧ y.idx = x'.idx ∧ y.st ≠ .D ∧ upos p m < upos p n) ∨
+    e ≤ x'.idx
+
+theorem CycleCtx.names_old {p : Proc N} {old new : Util N} {e e' : Nat} (C : CycleCtx p old e new e') {n : N}
+    {x : HI} (hx : x ∈ old.get n) : n ∈ p.allUnits.map (·.name) :=
+  C.rowOld.names n (fun e0 => by rw [e0] at hx; cases hx)
+
+theorem CycleCtx.names_new {p : Proc N} {old new : Util N} {e e' : Nat} (C : CycleCtx p old e new e') {n : N}
+    {x : HI} (hx : x ∈ new.get n) : n ∈ p.allUnits.map (·.name) :=
+  C.rowNew.names n (fun e0 => by rw [e0] at hx; cases hx)
+
+/-- a hosted instruction ranks below a retired one -/
+theorem CycleCtx.rank_old_lt {p : Proc N} {old new : Util N} {e e' : Nat} (C : CycleCtx p old e new e') {m : N}
+    {y : HI} (hy : y ∈ old.get m) : rank p old e y.idx < retRank p := by
+  rw [rank_of_mem e C.ndOld (C.names_old hy) hy]
+  have := C.hpos m y hy
+  have := labRank_le y.st
+  unfold retRank; omega
+
+/-- how the rank of the instruction behind an entry `x'` of the new record compares with its old rank: strictly
+larger, or the very same entry was in the same unit of the old record -/
+theorem CycleCtx.rank_new {p : Proc N} {old new : Util N} {e e' : Nat} (C : CycleCtx p old e new e') {n : N}
+    {x' : HI} (hx' : x' ∈ new.get n) :
+    rank p old e x'.idx < rank p new e' x'.idx ∨
+    (x' ∈ old.get n ∧ rank p old e x'.idx = rank p new e' x'.idx) := by
+  have hnew := rank_of_mem e' C.ndNew (C.names_new hx') hx'
+  rcases C.cases n x' hx' with ⟨x, hx, hi, hD, hND⟩ | ⟨m, y, hy, hi, _, hlt⟩ | hge
+  · have hold := rank_of_mem e C.ndOld (C.names_old hx) hx
+    rw [hi] at hold
+    rw [hnew, hold]
+    by_cases hst : x.st = x'.st
+    · right
+      have : x = x' := by
+        obtain ⟨a, b⟩ := x; obtain ⟨a', b'⟩ := x'
+        simp only at hi hst; rw [hi, hst]
+      rw [← this]; exact ⟨hx, rfl⟩
+    · left
+      by_cases hd : x.st = .D
+      · have h1 := hD hd
+        rw [hd] at hst ⊢
+        cases hs : x'.st <;> simp_all [labRank]
+      · have h1 := hND hd
+        rw [h1] at hst ⊢
+        cases hs : x.st <;> simp_all [labRank]
+  · left
+    have hold := rank_of_mem e C.ndOld (C.names_old hy) hy
+    rw [hi] at hold
+    rw [hnew, hold]
+    have := labRank_le y.st
+    have := labRank_pos x'.st
+    omega
+  · left
+    have hnone : findHost (p.allUnits.map (·.name)) old x'.idx = none := by
+      cases h : findHost (p.allUnits.map (·.name)) old x'.idx with
+      | none => rfl
+      | some r =>
+        obtain ⟨m, l⟩ := r
+        have := C.rowOld.idx_lt m _ (findHost_some h).2
+        simp only at this; omega
+    rw [rank_of_not_hosted hnone, hnew, if_neg (by omega)]
+    have := labRank_pos x'.st
+    omega
+
+/-- **the rank of an instruction never decreases** -/
+theorem CycleCtx.rank_mono {p : Proc N} {old new : Util N} {e e' : Nat} (C : CycleCtx p old e new e') (i : Nat) :
+    rank p old e i ≤ rank p new e' i := by
+  cases hN : findHost (p.allUnits.map (·.name)) new i with
+  | some r =>
+    obtain ⟨n, l'⟩ := r
+    have hx' := (findHost_some hN).2
+    rcases C.rank_new hx' with h | ⟨_, h⟩
+    · exact Nat.le_of_lt h
+    · exact Nat.le_of_eq h
+  | none =>
+    rw [rank_of_not_hosted hN]
+    cases hO : findHost (p.allUnits.map (·.name)) old i with
+    | some r =>
+      obtain ⟨m, l⟩ := r
+      have hy := (findHost_some hO).2
+      have h1 := C.rowOld.idx_lt m _ hy
+      have h2 := C.rank_old_lt hy
+      have := C.hle
+      simp only at h1 h2
+      rw [if_pos (by omega)]; omega
+    | none =>
+      rw [rank_of_not_hosted hO]
+      have := C.hle
+      split <;> split <;> omega
+
+omit [DecidableEq N] in
+theorem sum_map_le {l : List Nat} {f g : Nat → Nat} (h : ∀ i ∈ l, f i ≤ g i) : (l.map f).sum ≤ (l.map g).sum := by
+  induction l with
+  | nil => simp
+  | cons a l ih =>
+    have h1 := h a List.mem_cons_self
+    have h2 := ih (fun i hi => h i (List.mem_cons_of_mem _ hi))
+    simp only [List.map_cons, List.sum_cons]; omega
+
+omit [DecidableEq N] in
+theorem eq_of_sum_map_le {l : List Nat} {f g : Nat → Nat} (h : ∀ i ∈ l, f i ≤ g i)
+    (hs : (l.map g).sum ≤ (l.map f).sum) : ∀ i ∈ l, f i = g i := by
+  induction l with
+  | nil => intro i hi; cases hi
+  | cons a l ih =>
+    have h1 := h a List.mem_cons_self
+    have h2 := sum_map_le (fun i hi => h i (List.mem_cons_of_mem _ hi))
+    simp only [List.map_cons, List.sum_cons] at hs
+    intro i hi
+    rcases List.mem_cons.1 hi with rfl | hi'
+    · omega
+    · exact ih (fun i hi => h i (List.mem_cons_of_mem _ hi)) (by omega) i hi'
+
+omit [DecidableEq N] in
+theorem sum_map_le_const {l : List Nat} {f : Nat → Nat} {c : Nat} (h : ∀ i ∈ l, f i ≤ c) :
+    (l.map f).sum ≤ l.length * c := by
+  induction l with
+  | nil => simp
+  | cons a l ih =>
+    have h1 := h a List.mem_cons_self
+    have h2 := ih (fun i hi => h i (List.mem_cons_of_mem _ hi))
+    simp only [List.map_cons, List.sum_cons, List.length_cons, Nat.add_mul, Nat.one_mul]; omega
+
+/-- the potential: sum of the ranks of all program indices -/
+def phi (p : Proc N) (nprog : Nat) (u : Util N) (e : Nat) : Nat := ((List.range nprog).map (rank p u e)).sum
+
+theorem CycleCtx.phi_mono {p : Proc N} {old new : Util N} {e e' : Nat} (C : CycleCtx p old e new e') (nprog : Nat) :
+    phi p nprog old e ≤ phi p nprog new e' :=
+  sum_map_le (fun i _ => C.rank_mono i)
+
+/-- if no rank changed, the new record equals the old one as per-unit multisets -/
+theorem CycleCtx.perm_of_rank_eq {p : Proc N} {old new : Util N} {e e' : Nat} (C : CycleCtx p old e new e')
+    {nprog : Nat} (he' : e' ≤ nprog) (heq : ∀ i, i < nprog → rank p old e i = rank p new e' i) :
+    ∀ n, (new.get n).Perm (old.get n) := by
+  have step1 : ∀ n x', x' ∈ new.get n → x' ∈ old.get n := by
+    intro n x' hx'
+    have hlt := C.rowNew.idx_lt n x' hx'
+    rcases C.rank_new hx' with h | ⟨h, _⟩
+    · have := heq x'.idx (by omega); omega
+    · exact h
+  have step2 : ∀ m y, y ∈ old.get m → y ∈ new.get m := by
+    intro m y hy
+    have hlt := C.rowOld.idx_lt m y hy
+    have hle := C.hle
+    have hr := C.rank_old_lt hy
+    have he := heq y.idx (by omega)
+    cases hN : findHost (p.allUnits.map (·.name)) new y.idx with
+    | none =>
+      rw [rank_of_not_hosted hN, if_pos (by omega)] at he
+      omega
+    | some r =>
+      obtain ⟨n, l'⟩ := r
+      have hx' := (findHost_some hN).2
+      have hold := step1 n _ hx'
+      have : m = n := C.ndOld.unique_host m n y.idx (List.mem_map.2 ⟨y, hy, rfl⟩) (List.mem_map.2 ⟨_, hold, rfl⟩)
+      subst this
+      have := eq_of_idx_eq (C.ndOld.nodup_unit m) hy hold rfl
+      rw [this]; exact hx'
+  intro n
+  rw [List.perm_ext_iff_of_nodup (nodup_of_idx_nodup (C.ndNew.nodup_unit n)) (nodup_of_idx_nodup (C.ndOld.nodup_unit n))]
+  exact fun a => ⟨step1 n a, step2 n a⟩
+
+/-- **a productive cycle strictly increases the potential** -/
+theorem CycleCtx.phi_lt {p : Proc N} {old new : Util N} {e e' : Nat} (C : CycleCtx p old e new e')
+    {nprog : Nat} (he' : e' ≤ nprog) (hb : Util.beq new old = false) : phi p nprog old e < phi p nprog new e' := by
+  have hmono : ∀ i ∈ List.range nprog, rank p old e i ≤ rank p new e' i := fun i _ => C.rank_mono i
+  by_cases hlt : phi p nprog old e < phi p nprog new e'
+  · exact hlt
+  · exfalso
+    have heq := eq_of_sum_map_le hmono (by unfold phi at hlt; omega)
+    have hperm := C.perm_of_rank_eq he' (fun i hi => heq i (List.mem_range.2 hi))
+    rw [(Util_beq_iff_multiset C.rowNew.keys_nodup C.rowOld.keys_nodup).2 hperm] at hb
+    cases hb
+
+/-- the potential is at most `instructions × (3 × units + 1)` -/
+theorem phi_le {p : Proc N} {u : Util N} {e : Nat}
+    (hpos : ∀ m y, y ∈ u.get m → upos p m < p.allUnits.length) (nprog : Nat) :
+    phi p nprog u e ≤ nprog * retRank p := by
+  have : ∀ i ∈ List.range nprog, rank p u e i ≤ retRank p := by
+    intro i _
+    unfold rank
+    cases h : findHost (p.allUnits.map (·.name)) u i with
+    | some r =>
+      obtain ⟨n, l⟩ := r
+      have := hpos n _ (findHost_some h).2
+      have := labRank_le l
+      simp only; unfold retRank; omega
+    | none => simp only; split <;> omega
+  have := sum_map_le_const this
+  simpa [phi] using this
+
+end rank
+
+/-! ## 5. The cycle context of a real cycle, the termination invariant, and the bound -/
+
+section term
+
+omit [LT N] [DecidableRel (α := N) (· < ·)] in
+/-- the per-instruction case analysis for the relabelled record of a cycle -/
+theorem labelled_cases {p : Proc N} {prog : List (Instr N)} {qs : Queues N} {old : Util N}
+    (hnd : RowND old) {e : Nat} {mid : Util N} (hmid : ∀ n x, x ∈ mid.get n → Origin p old e n x)
+    {lab : Util N × List (N × Nat)} (hlab : labelAll p.allUnits prog qs old mid = .ok lab) :
+    ∀ n x', x' ∈ lab.1.get n →
+      (∃ x ∈ old.get n, x.idx = x'.idx ∧ (x.st = .D → x'.st ≠ .S) ∧ (x.st ≠ .D → x'.st = .S)) ∨
+      (∃ m y, y ∈ old.get m ∧ y.idx = x'.idx ∧ y.st ≠ .D ∧ upos p m < upos p n) ∨
+      e ≤ x'.idx := by
+  intro n x' hx'
+  have hg := labelAll_get hlab n
+  by_cases hne : mid.get n = []
+  · rw [hg.1 hne] at hx'; cases hx'
+  · obtain ⟨unit, _, hnew⟩ := hg.2 hne
+    rw [hnew] at hx'
+    obtain ⟨x, hx, rfl⟩ := List.mem_map.1 hx'
+    rcases hmid n x hx with h1 | ⟨_, m, y, hy, hi, hD, hlt⟩ | ⟨_, h3⟩
+    · left
+      refine ⟨x, h1, rfl, ?_, ?_⟩
+      · intro hd hS
+        have := (labelOf_eq_S_iff prog qs unit (old.get n) x.idx).1 hS
+        rw [wasLoaded_of_mem (hnd.nodup_unit n) h1, hd] at this
+        simp at this
+      · intro hd
+        apply (labelOf_eq_S_iff prog qs unit (old.get n) x.idx).2
+        rw [wasLoaded_of_mem (hnd.nodup_unit n) h1]
+        simpa using hd
+    · exact Or.inr (Or.inl ⟨m, y, hy, hi, hD, hlt⟩)
+    · exact Or.inr (Or.inr h3)
+
+/-- without input ports nothing is ever issued -/
+theorem fillCycle_entered_of_no_inputs (p : Proc N) (prog : List (Instr N)) (old : Util N) (e : Nat) :
+    p.inBoundary ≠ [] ∨ (fillCycle p prog old e).2 = e := by
+  obtain ⟨_, h⟩ := fillCycle_induction p prog (fun _ _ e' => p.inBoundary ≠ [] ∨ e' = e) old e
+    (Or.inr rfl) (fun _ _ _ _ h => h)
+    (fun _ _ _ _ port _ _ hport _ => Or.inl (fun e0 => by rw [e0] at hport; cases hport))
+  exact h
+
+/-- the invariant of the termination proof: `CoreInv`, and "something was issued ⇒ there is an input port" -/
+structure TermInv (p : Proc N) (prog : List (Instr N)) (s : SimState N) : Prop extends CoreInv p prog s where
+  hin : 0 < s.entered → p.inBoundary ≠ []
+
+omit [LT N] [DecidableRel (α := N) (· < ·)] in
+theorem TermInv.init (p : Proc N) (prog : List (Instr N)) : TermInv p prog (initState prog) :=
+  ⟨CoreInv.init p prog, fun h => by simp [initState] at h⟩
+
+theorem TermInv.step {p : Proc N} {prog : List (Instr N)} (hwf : wfProc p = true) {s s' : SimState N}
+    (h : TermInv p prog s) (hs : runCycle p prog s = .ok (some s')) : TermInv p prog s' := by
+  refine ⟨h.toCoreInv.step_wf hwf hs, ?_⟩
+  obtain ⟨lab, qs, _, _, _, rfl⟩ := runCycle_eq_some hs
+  simp only
+  intro hpos
+  rcases fillCycle_entered_of_no_inputs p prog s.util s.entered with h1 | h1
+  · exact h1
+  · rw [h1] at hpos; exact h.hin hpos
+
+omit [LT N] [DecidableRel (α := N) (· < ·)] in
+theorem TermInv.hpos {p : Proc N} {prog : List (Instr N)} {s : SimState N} (h : TermInv p prog s) :
+    ∀ m y, y ∈ s.util.get m → upos p m < p.allUnits.length := by
+  intro m y hy
+  have := h.row.idx_lt m y hy
+  exact upos_lt_units (h.hin (by omega)) m
+
+/-- the cycle context of the cycle run from a state satisfying the invariant (whatever the stall test says) -/
+theorem cycleCtx_of_labelAll {p : Proc N} {prog : List (Instr N)} (hwf : wfProc p = true) {s : SimState N}
+    (h : TermInv p prog s) {lab : Util N × List (N × Nat)}
+    (hlab : labelAll p.allUnits prog s.queues s.util (fillCycle p prog s.util s.entered).1 = .ok lab) :
+    CycleCtx p s.util s.entered lab.1 (fillCycle p prog s.util s.entered).2 := by
+  have hn := wfProc_nodup_names hwf
+  have hfill := h.row.after_fillCycle hn prog
+  refine ⟨h.row, h.nd, ?_, ?_, fillCycle_entered_ge p prog _ _, h.hpos, ?_⟩
+  · exact hfill.congr (by rw [labelAll_keys hlab]; exact hfill.keys_nodup) (labelAll_get_idx hlab)
+  · exact (h.nd.after_fillCycle h.row hn (wfProc_preds_nodup hwf) (wfProc_self_not_pred hwf) prog).congr
+      (labelAll_get_idx hlab)
+  · exact labelled_cases h.nd (fillCycle_origin (wfProc_orderOK hwf) prog s.util s.entered) hlab
+
+/-- potential of a state -/
+def SimState.phi (p : Proc N) (prog : List (Instr N)) (s : SimState N) : Nat :=
+  Term.phi p prog.length s.util s.entered
+
+omit [LT N] [DecidableRel (α := N) (· < ·)] in
+theorem TermInv.phi_le {p : Proc N} {prog : List (Instr N)} {s : SimState N} (h : TermInv p prog s) :
+    SimState.phi p prog s ≤ prog.length * retRank p :=
+  Term.phi_le h.hpos prog.length
+
+/-- **a productive cycle strictly increases the potential** -/
+theorem phi_lt_of_productive {p : Proc N} {prog : List (Instr N)} (hwf : wfProc p = true) {s s' : SimState N}
+    (h : TermInv p prog s) (hs : runCycle p prog s = .ok (some s')) :
+    SimState.phi p prog s < SimState.phi p prog s' := by
+  obtain ⟨lab, qs, hlab, _, hb, rfl⟩ := runCycle_eq_some hs
+  exact (cycleCtx_of_labelAll hwf h hlab).phi_lt (fillCycle_entered_le p prog _ _ h.entered_le) hb
+
+/-- with enough fuel for the remaining potential (plus one for the stall-detecting cycle), `simLoop` does not run out
+of fuel -/
+theorem simLoop_no_fuel {p : Proc N} {prog : List (Instr N)} (hwf : wfProc p = true) :
+    ∀ fuel s, TermInv p prog s → prog.length * retRank p + 1 ≤ SimState.phi p prog s + fuel →
+      simLoop p prog fuel s ≠ .fault .fuel := by
+  intro fuel
+  induction fuel with
+  | zero =>
+    intro s hs hf
+    have := hs.phi_le
+    omega
+  | succ fuel ih =>
+    intro s hs hf
+    unfold simLoop
+    split
+    · intro h; cases h
+    · cases hr : runCycle p prog s with
+      | error f =>
+        simp only
+        intro h; injection h with h
+        exact runCycle_error_ne_fuel hr h
+      | ok o =>
+        cases o with
+        | none => simp only; intro h; cases h
+        | some s' =>
+          simp only
+          have := phi_lt_of_productive hwf hs hr
+          exact ih s' (hs.step hwf hr) (by omega)
+
+omit [DecidableEq N] [LT N] [DecidableRel (α := N) (· < ·)] in
+theorem cycleBound_eq (p : Proc N) (prog : List (Instr N)) : cycleBound p prog = prog.length * retRank p + 1 := rfl
+
+/-- **`simulate` never runs out of fuel** -/
+theorem simulate_no_fuel {p : Proc N} (prog : List (Instr N)) (hwf : wfProc p = true) :
+    simulate p prog ≠ .fault .fuel := by
+  unfold simulate
+  apply simLoop_no_fuel hwf _ _ (TermInv.init p prog)
+  rw [cycleBound_eq]; omega
+
+/-- a fault of `simulate` is `queueEmpty` or `badDequeue` -/
+theorem simulate_fault_cases {p : Proc N} (prog : List (Instr N)) (hwf : wfProc p = true) {f : Fault}
+    (h : simulate p prog = .fault f) : f = .queueEmpty ∨ f = .badDequeue := by
+  have hn := wfProc_nodup_names hwf
+  rcases simLoop_fault (p := p) (prog := prog) (BaseInv p prog) (fun _ _ hs hr => hs.step hn hr)
+    (cycleBound p prog) (initState prog) (BaseInv.init p prog) f h with e | ⟨s', hs', hr⟩
+  · rw [e] at h; exact absurd h (simulate_no_fuel prog hwf)
+  · exact runCycle_no_noUnit_badIndex hn hs' hr
+
+end term
+
 end Term
 end ProcSim
